@@ -55,3 +55,28 @@ def is_lhex4(s, i):
 def hex4val(s, i):
     """value of the four hexadecimal digits s[i:i+4] (git's packet_length())."""
     return 4096 * hexval1(s[i]) + 256 * hexval1(s[i + 1]) + 16 * hexval1(s[i + 2]) + hexval1(s[i + 3])
+
+
+def ref_char_ok(c):
+    """git check-ref-format: no ASCII control character, DEL, space, ~ ^ : ? * [ (refname_disposition)."""
+    return c >= 32 and c != 127 and c != 32 and c != 126 and c != 94 and c != 58 and c != 63 and c != 42 and c != 91
+
+
+def is_dotlock_before(s, e):
+    """s[e-5:e] == b'.lock'"""
+    return e >= 5 and s[e - 5] == 46 and s[e - 4] == 108 and s[e - 3] == 111 and s[e - 2] == 99 and s[e - 1] == 107
+
+
+def git_check_refname_format(s):
+    """git's check_refname_format(refname, 0) (refs.c), for byte strings without NUL:
+    at least two components; no empty component (no leading/trailing '/', no '//'); no component starts with '.'
+    or ends with '.lock'; no '..', no '@{', no backslash, no forbidden character; does not end with '.';
+    is not '@'."""
+    n = len(s)
+    has_slash = any(s[k] == 47 for k in range(0, n))
+    chars_ok = all(ref_char_ok(s[k]) and s[k] != 92 for k in range(0, n))
+    no_dotdot = all(not (s[k] == 46 and s[k + 1] == 46) for k in range(0, n - 1))
+    no_at_brace = all(not (s[k] == 64 and s[k + 1] == 123) for k in range(0, n - 1))
+    starts_ok = all(not (k == 0 or s[k - 1] == 47) or (k < n and s[k] != 47 and s[k] != 46) for k in range(0, n + 1))
+    ends_ok = all(not (k == n or s[k] == 47) or not is_dotlock_before(s, k) for k in range(0, n + 1))
+    return n > 0 and has_slash and chars_ok and no_dotdot and no_at_brace and starts_ok and ends_ok and s[n - 1] != 46
